@@ -48,7 +48,7 @@ pub fn batches(prop: &str, tier: &str) -> Vec<(&'static str, u64)> {
         "C10" => vec![("fine", t(100_000))],
         "C20" => vec![("wiring", 1), ("fault-free", t(150_000)), ("faults", t(250_000))],
         "C11" => vec![("crash", t(64_000)), ("caught-user-panics", t(100_000))],
-        "C18" => vec![("permute", t(60_000)), ("reroute", t(40_000)), ("two-mocks", t(40_000)), ("relabel", t(40_000)), ("mixed", t(40_000))],
+        "C18" => vec![("permute", t(60_000)), ("reroute", t(40_000)), ("two-mocks", t(40_000)), ("relabel", t(40_000)), ("mixed", t(40_000)), ("cross", t(30_000))],
         "C16" => vec![("fault-free", t(120_000)), ("faults", t(40_000)), ("executor", t(60_000))],
         "C15" => vec![("fault-free", t(120_000)), ("faults", t(40_000)), ("helper-race", t(40_000)), ("fmt-supertraits", t(4_000))],
         "C12" => vec![("fault-free", t(120_000)), ("faults", t(60_000))],
@@ -195,6 +195,17 @@ pub fn generate(prop: &str, base_seed: u64, batch: &str, run: u64) -> Scenario {
             knobs: vec![("io_seed".into(), (rng.next() >> 1) as i64), ("group".into(), (run % 13) as i64)],
         },
         "C11" => crate::crash::gen_c11(base_seed, batch, run, &mut rng),
+        "C18" if batch == "cross" => Scenario {
+            prop: prop.to_string(),
+            base_seed,
+            run,
+            batch: batch.to_string(),
+            config: Config::default(),
+            config2: None,
+            threads: vec![],
+            sched: SchedSpec { fine: false, strategy: Strategy::RoundRobin, seed: 0, sites: 0, choices: vec![] },
+            knobs: vec![("cross_seed".into(), (rng.next() >> 1) as i64)],
+        },
         "C18" => crate::twin::gen_c18(base_seed, batch, run, &mut rng),
         "C16" => crate::twin::gen_c16(base_seed, batch, run, &mut rng),
         "C15" if batch == "fmt-supertraits" => Scenario {
@@ -496,6 +507,7 @@ pub fn check_in_process(scn: &Scenario) -> Checked {
         #[cfg(feature = "stdworld")]
         "C20" => crate::ioworld::check_c20(scn),
         "C11" => crate::crash::check_c11(scn),
+        "C18" if scn.batch == "cross" => crate::crossworld::check_cross(scn),
         "C18" => crate::twin::check_c18(scn),
         "C16" => crate::twin::check_c16(scn),
         #[cfg(feature = "stdworld")]
